@@ -346,6 +346,13 @@ func TestC06_BadShare(t *testing.T) {
 				}
 			}
 			sig, err := ins2.ThresholdSignature()
+			// a failed reconstruction must not leave anything behind: later calls fail the same way
+			for again := 0; again < 2 && err != nil; again++ {
+				sig2, err2 := ins2.ThresholdSignature()
+				if sig2 != nil || err2 == nil {
+					g.Fatalf("ThresholdSignature() call #%d after a failed reconstruction (a %s share added by TrustedAdd) returned (%x, %v); the first call returned %v", again+2, kind, []byte(sig2), err2, err)
+				}
+			}
 			if err == nil && !inG1 && bytes.Equal(sig, s.expected) {
 				// s_j + T with T of small order: the Lagrange coefficient of signer j can
 				// annihilate T (l_j ≡ 0 mod ord T); the result is then the valid signature.
